@@ -69,7 +69,11 @@ def make_compare():
                         "event %d %s fires while processing byte %d at -O0 but byte %d in this build (allowed shift %d)" % (i, x[:2], bx, by, lim))
             if x[0] == "Y" and x[2] >= 0 and y[2] >= 0 and x[2] != y[2]:
                 # the position a yield reports is what a lexer cuts its tokens with: it may not move with the optimisation level
-                return ("c05:differs:yield-pointer", "yield %s reports position %d at -O0 but %d in this build" % (p0.code_name(x[1]), x[2], y[2]))
+                nx, ny = (a[i + 1] if i + 1 < len(a) else None), (b[i + 1] if i + 1 < len(b) else None)
+                done = p0.codes.index("DONE")
+                final = lambda e, z: z is not None and z[0] == "T" and z[1] == done and z[2] == e[2]
+                tag = "[yield-on-final-transition]" if abs(x[2] - y[2]) == 1 and (final(x, nx) or nx is None) and (final(y, ny) or ny is None) else ""
+                return ("c05:differs:yield-pointer" + tag, "yield %s reports position %d at -O0 but %d in this build" % (p0.code_name(x[1]), x[2], y[2]))
             if x[0] in ("Y", "T") and x[2] >= 0 and y[2] >= 0 and abs(x[2] - y[2]) > lim:
                 return ("c05:differs:pointer-offset", "pointer offset %d vs %d at event %d %s" % (x[2], y[2], i, x[:2]))
         longer = a if len(a) > len(b) else b
